@@ -6,7 +6,6 @@ REG = dict(
     note='Assignment-free programs; purity is syntactic (no print/throw/assert, no division); final result = value of the last top-level expression. Selections are exact node spans (no partial selections, no surrounding whitespace).',
     design_ref='DESIGN.md §6 C20',
 )
-REG = REG_DRAFT
 
 import os
 from ..core import Machinery
